@@ -1,16 +1,16 @@
 SPECIFICATION Spec
 CONSTANTS
-  MaxPerFamily = 3
-  Patience = 3
-  LateAfter = 0
+  MaxPerFamily = 2
+  Patience = 4
+  LateAfter = 2
   InlineLast = FALSE
-  Deadline = 0
-  PassedMeansNone = FALSE
+  Deadline = 1
+  PassedMeansNone = TRUE
 INVARIANT SucceedsIffSomeAccepts
 INVARIANT WinnerAccepted
 INVARIANT HonestFailure
 INVARIANT OrderOK
 INVARIANT QuickSuccess
-INVARIANT Emit
+INVARIANT NoSuccessAfterDeadline
 PROPERTY Terminates
 CHECK_DEADLOCK FALSE
